@@ -56,9 +56,24 @@ class _LoopBack(Exception):
 UNIT = ("unit",)
 NOISE_METHODS = {"borrow", "borrow_mut", "clone", "as_ref", "as_mut", "deref", "deref_mut", "as_str", "as_deref", "by_ref", "into", "to_owned", "to_string"}
 PURE_METHODS = NOISE_METHODS | {
+    "as_bytes", "as_slice", "as_ptr", "is_ascii_alphanumeric", "eq", "ne", "cmp", "min", "max", "checked_add", "checked_sub", "wrapping_add", "wrapping_sub", "wrapping_mul",
+    "leading_zeros", "trailing_zeros", "count_ones", "is_char_boundary", "get_unchecked", "offset_from", "to_ascii_lowercase", "to_ascii_uppercase", "unwrap_or_else", "unwrap_or_default", "is_some_and", "and_then", "ok", "err", "is_ok", "is_err", "filter", "find", "enumerate", "skip", "rev", "peekable", "cloned", "copied", "zip", "rposition", "local_name", "ns", "expanded", "upgrade", "as_deref", "get_attribute",
     "len", "is_empty", "is_some", "is_none", "get", "chars", "next", "iter", "unwrap", "expect", "len32", "peek_nth", "contains",
     "unwrap_or", "map", "any", "all", "eq_ignore_ascii_case", "starts_with", "ends_with", "last", "first", "rev", "position", "count", "name_buf",
 }
+
+
+_SHOW_ENV = [None]
+
+
+def show_env(e, env):
+    """like show(), but local names are replaced by the text of the value they hold"""
+    old = _SHOW_ENV[0]
+    _SHOW_ENV[0] = env
+    try:
+        return show(e)
+    finally:
+        _SHOW_ENV[0] = old
 
 
 def show(e):
@@ -68,6 +83,10 @@ def show(e):
     k = e.get("k")
     if k == "Path":
         p = e["path"]
+        if _SHOW_ENV[0] is not None and p in _SHOW_ENV[0]:
+            v = _SHOW_ENV[0][p]
+            if not (isinstance(v, tuple) and v and v[0] == "closure"):
+                return showv(v)
         a = decode_atom(p)
         if a:
             return "atom:%s" % a[1]
@@ -145,6 +164,10 @@ def showv(v):
     if isinstance(v, int):
         return str(v)
     t = v[0]
+    if t == "atom":
+        return "atom:" + v[1]
+    if t == "set":
+        return "set{%s}" % "".join(sorted(v[1])).encode("unicode_escape").decode()
     if t == "ch":
         return repr(v[1])
     if t == "str":
@@ -191,6 +214,8 @@ class Config:
         self.int_fields = kw.get("int_fields", {})
         # render call results with their arguments (generic normal forms) or as f() (tokenizer tables)
         self.full_call_text = kw.get("full_call_text", False)
+        # generic functions: `loop {}` is summarised like while/for instead of being the state machine's iteration
+        self.generic_loops = kw.get("generic_loops", False)
 
 
 class Run:
@@ -629,6 +654,14 @@ class Run:
 
     def e_Loop(self, e, env):
         lab = e.get("label")
+        if self.cfg.generic_loops:
+            self.depth_loops += 1
+            if self.depth_loops > 3:
+                raise Unsupported("nested loop")
+            try:
+                return self._summary_loop("loop", e["body"], env)
+            finally:
+                self.depth_loops -= 1
         if self.depth_loops > 0:
             raise Unsupported("nested loop")
         self.depth_loops += 1
@@ -680,13 +713,13 @@ class Run:
 
     def e_Index(self, e, env):
         b = self.eval(e["e"], env)
-        i = self.resolve(self.eval(e["i"], env)) if e["i"]["k"] != "Range" else ("unk", show(e["i"]))
+        i = self.resolve(self.eval(e["i"], env)) if e["i"]["k"] != "Range" else ("unk", show_env(e["i"], env))
         if isinstance(b, tuple) and b[0] == "tuple" and isinstance(i, int):
             return b[1][i]
         return ("unk", "%s[%s]" % (showv(b), showv(i)))
 
     def e_Range(self, e, env):
-        return ("unk", show(e))
+        return ("unk", show_env(e, env))
 
     def e_Closure(self, e, env):
         return ("closure", e, dict(env))
@@ -711,7 +744,7 @@ class Run:
             acts = "; ".join("%s(%s)" % (a, ",".join(showv(x) for x in args)) for a, args in sub.actions)
             return "|..|{%s => return %s}" % (acts, showv(r.v))
         except (NeedChoice, Unsupported, _Infeasible, _Break, _Continue, _LoopBack, KeyError, IndexError, TypeError):
-            return "|..|" + show(e["body"])
+            return "|..|" + show_env(e["body"], cenv)
 
     def apply_closure(self, c, args):
         e, cenv = c[1], dict(c[2])
@@ -728,14 +761,51 @@ class Run:
         finally:
             self.depth -= 1
 
+    def _assigned_locals(self, body, env):
+        """locals (present in env) that the loop body assigns or mutates through a non-pure method"""
+        names = []
+
+        def target(t):
+            while t.get("k") in ("Unary", "Ref", "Index", "Field", "Paren"):
+                t = t["e"]
+            if t.get("k") == "Path" and t["path"] in env and not (isinstance(env[t["path"]], tuple) and env[t["path"]][0] == "obj"):
+                if t["path"] not in names:
+                    names.append(t["path"])
+
+        def f(n):
+            k = n.get("k")
+            if k == "Assign":
+                target(n["lhs"])
+            elif k == "Binary" and n["op"].endswith("=") and n["op"] not in ("==", "!=", "<=", ">="):
+                target(n["l"])
+            elif k == "MethodCall" and n["m"] not in PURE_METHODS:
+                target(n["recv"])
+            elif k == "Closure":
+                return False
+
+        from .ast import walk
+
+        walk(body, f)
+        return names
+
     def _summary_loop(self, what, body, env):
-        """a data-dependent loop inside a helper: its body is evaluated once, bracketed by loop markers"""
+        """a data-dependent loop: its body is evaluated once from an arbitrary iteration (loop-carried locals are
+        unknown at the head), bracketed by loop markers; afterwards the carried locals hold 'whatever the loop left'"""
+        carried = self._assigned_locals(body, env)
+        env2 = dict(env)
+        for n in carried:
+            env2[n] = ("unk", "\u03c6(%s)" % showv(env[n]))
         self.act("loop-begin " + what)
+        how = "end"
         try:
-            self.block(body, dict(env))
-        except (_Break, _Continue):
-            pass
-        self.act("loop-end")
+            self.block(body, env2)
+        except _Break:
+            how = "break"
+        except _Continue:
+            how = "continue"
+        self.act("loop-end", [("unk", how)])
+        for n in carried:
+            env[n] = ("unk", "loop(%s)" % showv(env2.get(n, env[n])))
         return UNIT
 
     def e_While(self, e, env):
@@ -746,12 +816,12 @@ class Run:
             self.match(cond["pat"], v if not is_unk(v) else v, env2)
             what = "while %s matches %s" % (showv(v), self.showpat(cond["pat"]))
         else:
-            what = "while " + show(cond)
+            what = "while " + show_env(cond, env2)
         return self._summary_loop(what, e["body"], env2)
 
     def e_For(self, e, env):
         env2 = dict(env)
-        it = self.eval(e["iter"], env2) if e["iter"]["k"] != "Range" else ("unk", show(e["iter"]))
+        it = self.eval(e["iter"], env2) if e["iter"]["k"] != "Range" else ("unk", show_env(e["iter"], env2))
         self.match(e["pat"], ("unk", "item"), env2)
         return self._summary_loop("for _ in " + showv(it), e["body"], env2)
 
@@ -805,6 +875,8 @@ class Run:
             v = env.get(e["path"])
             if isinstance(v, tuple) and v[0] == "obj":
                 return v[1]
+            if v is not None:
+                return showv(v)
             return e["path"]
         if k == "Field":
             return self.place_of(e["e"], env) + "." + e["name"]
@@ -959,7 +1031,16 @@ class Run:
         if isinstance(recv, tuple) and recv[0] == "str":
             if m == "len":
                 return len(recv[1].encode())
-        return ("unk", "%s.%s(%s)" % (showv(recv), m, ",".join(showv(a) for a in args)))
+        txt = "%s.%s(%s)" % (showv(recv), m, ",".join(showv(a) for a in args))
+        if self.cfg.full_call_text and m not in PURE_METHODS:
+            # a method that may mutate a local value (Vec::push, Option::get_or_insert, ...)
+            self.act("local." + m, [recv] + [self.argv(a) for a in args])
+            t = e["recv"]
+            while t.get("k") in ("Ref", "Unary"):
+                t = t["e"]
+            if t.get("k") == "Path" and t["path"] in env:
+                env[t["path"]] = ("unk", txt)
+        return ("unk", txt)
 
     def inline_fn(self, item, recv, args):
         if self.depth > 6:
